@@ -138,9 +138,5 @@ func VerifPoison(obj any) {
 	case *HeaderField:
 		fill(x.key)
 		fill(x.value)
-	case *Stream:
-		fill(x.scheme)
-		fill(x.path)
-		fill(x.previousHeaderBytes)
 	}
 }
